@@ -241,7 +241,7 @@ def r3(ctx):
             ctx.check("C16.R3", pv is not None, key(f, "provenance|" + norm(c)), site(f, c), "cannot tell which configuration source `%s` applies" % norm(c), "source: %s" % pv)
             if pv:
                 sites.append((pv, c))
-    sites.sort(key=lambda x: (x[1].lineno, x[1].col_offset))
+    sites.sort(key=lambda x: x[1]._ord)
     kinds = [k for k, _ in sites]
     for k in spec.CONFIG_AUTHORITY:
         ctx.check("C16.R3", k in kinds, key(f, "source|" + k), site(f), "load_config never applies the %s source" % k, "%s applied" % k)
